@@ -3,3 +3,4 @@ import RainModel.Model.Blocks
 import RainModel.Model.STree
 import RainModel.Model.Blocklist
 import RainModel.Model.AddrList
+import RainModel.Model.Admission
